@@ -135,21 +135,31 @@ Start ==
   /\ UNCHANGED <<ms, S, rest, acc, rem, csize, hdrs, ver, out>>
 
 (* read_line: delimiter present *)
+(* Request.proxy_protocol: only with the setting on, only on the first request of the connection, only for a
+   line that starts with "PROXY"; a malformed one is refused; then the request line is read under the same limit
+   ("ProxyLineNoLimit": the second read_line forgets the limit) *)
+IsProxyLine(line) == ProxyOn(ms) /\ out = <<>> /\ hdrs # <<"px-seen">> /\ LineIs(line, PxKinds)
 ReqLineFound ==
   /\ pc = "ReqLine" /\ FindCRLF(buf) > 0
   /\ LET i == FindCRLF(buf)
          line == Upto(buf, i - 1)
          okline == LineIs(line, RLOk)
-     IN IF (LimitLine > 0 /\ i - 1 > LimitLine) \/ ~okline
-        THEN Finish("reject") /\ UNCHANGED <<buf, ver>>
+         second == hdrs = <<"px-seen">>
+         limited == LimitLine > 0 /\ i - 1 > LimitLine /\ ~(second /\ "ProxyLineNoLimit" \in Dev)
+     IN IF limited THEN Finish("reject") /\ UNCHANGED <<buf, ver, hdrs>>
+        ELSE IF IsProxyLine(line)
+        THEN (IF S[line[1]] = "PX"
+              THEN buf' = From(buf, i + 2) /\ hdrs' = <<"px-seen">> /\ UNCHANGED <<pc, fin, ver>>
+              ELSE Finish("reject") /\ UNCHANGED <<buf, ver, hdrs>>)
+        ELSE IF ~okline THEN Finish("reject") /\ UNCHANGED <<buf, ver, hdrs>>
         ELSE /\ buf' = From(buf, i + 2) /\ ver' = (IF S[line[1]] = "RL11" THEN 11 ELSE 10)
-             /\ pc' = "Headers" /\ UNCHANGED fin
-  /\ UNCHANGED <<ms, S, net, ubuf, rest, acc, rem, csize, mstart, hdrs, out>>
+             /\ pc' = "Headers" /\ hdrs' = <<>> /\ UNCHANGED fin
+  /\ UNCHANGED <<ms, S, net, ubuf, rest, acc, rem, csize, mstart, out>>
 
 (* read_line: need more data *)
 ReqLineMore ==
   /\ pc = "ReqLine" /\ FindCRLF(buf) = 0
-  /\ IF LimitLine > 0 /\ Len(buf) > LimitLine + 2
+  /\ IF LimitLine > 0 /\ Len(buf) > LimitLine + 2 /\ ~(hdrs = <<"px-seen">> /\ "ProxyLineNoLimit" \in Dev)
      THEN Finish("reject") /\ UNCHANGED <<buf, net, ubuf>>
      ELSE \E d \in ReadSet :
             /\ net' = NetAfter(d) /\ ubuf' = <<>>
